@@ -115,7 +115,16 @@ func battery(prog []node) []node {
 		}
 		b = append(b, nApp("tr", nInt(900), nCall(nSym(n), args...)))
 	}
+	if vars["th"] {
+		// a thunk that survived the failed evaluation: forcing it again evaluates again
+		b = append(b, nApp("tr", nInt(903), nCall(nSym("th"))), nApp("tr", nInt(904), nCall(nSym("th"))))
+	}
 	b = append(b,
+		// a jump outside any loop is refused when the text is compiled: nothing of the text runs
+		nBegin(nDef("marker", nInt(1)), nBreak("")),
+		nSym("marker"),
+		nBegin(nDef("marker2", nInt(2)), nContinue("outer")),
+		nSym("marker2"),
 		nApp("+", nInt(1), nInt(2)),
 		nLet("let", []bind{{"bq", nInt(1)}}, nApp("tr", nInt(901), nSym("bq"))),
 		nFor("", nDef("bi", nInt(0)), nApp("<", nSym("bi"), nInt(2)), nDef("bi", nApp("+", nSym("bi"), nInt(1))), nApp("tr", nInt(902), nSym("bi"))),
@@ -159,6 +168,9 @@ func faultContexts(r *rng, c *genCtx, d int) []node {
 		nDef("vialazy", nCall(nSym("lz"), e())),
 		nDef("viaeval", nEval(e())),
 		nScope(nDef("inscope", e()), nSet("inscope", nApp("fail"))),
+		nDefn("mkth", []param{{"#x", true}}, "", nFn(nil, "", nApp("force", nSym("#x")))),
+		nDef("th", nCall(nSym("mkth"), e())),
+		nDef("forced", nCall(nSym("th"))),
 		nDef("after", nInt(7)),
 	}
 }
@@ -209,6 +221,14 @@ func init() {
 					prog = append([]node{ctxs[6]}, prog...)
 					pos++
 				}
+				if cx[0] == "def" && (cx[1] == "th" || cx[1] == "forced") {
+					// mkth, th and the first force, in this order
+					prog = append(prog[:pos], append([]node{ctxs[10], ctxs[11], ctxs[12]}, prog[pos:]...)...)
+					continue
+				}
+				if cx[0] == "defn" && cx[1] == "mkth" {
+					continue
+				}
 				prog = append(prog[:pos], append([]node{cx}, prog[pos:]...)...)
 			}
 			text := renderProgram(prog, nil)
@@ -236,6 +256,9 @@ func init() {
 			emit("parse", 0, text+")\n")
 			emit("compile", 0, text+"(cond 1 2)\n")
 			emit("compile", 0, "(def early 1)\n(fn [])\n"+text)
+			// a compile error inside a loop (a labelled one, too): the loop record must not survive
+			emit("compile", 0, text+"(for [(def ci 0) (< ci 1) (def ci (+ ci 1))] (cond 1 2))\n")
+			emit("compile", 0, text+"(for outer: [(def ci 0) (< ci 1) (def ci (+ ci 1))] (let [q 1] (fn [])))\n")
 		}
 		return 0
 	})
